@@ -69,6 +69,8 @@ package types
 //@   results d
 //@   ensures d.value == ms
 
+// the only characters of an accepted duration are an optional leading '-', digits and d h m s
+//@ spec func durChar(c int) bool = (48 <= c && c <= 57) || c == 100 || c == 104 || c == 109 || c == 115
 //@ func ParseDuration
 //@   props C12 C10
 //@   pure
@@ -80,11 +82,13 @@ package types
 //@     invariant 0 <= total && 0 <= value
 //@     invariant negative == 1 || negative == -1
 //@     invariant (negative == -1) == (s[0] == '-')
+//@     invariant chars: (s[0] == '-' ? 1 : 0) <= i && (forall k int :: ((s[0] == '-' ? 1 : 0) <= k && k < i) ==> durChar(s[k]))
 //@   loop 1.1
 //@     invariant 0 <= unitI && unitI <= 5
 //@   ensures range: err == nil ==> -9223372036854775807 <= d.value && d.value <= 9223372036854775807
 //@   ensures sign: err == nil ==> (s[0] == '-' ? d.value <= 0 : d.value >= 0)
 //@   ensures class: err != nil ==> errIs(err, errDuration)
+//@   ensures alphabet: err == nil ==> (forall k int :: ((s[0] == '-' ? 1 : 0) <= k && k < len(s)) ==> durChar(s[k]))
 
 //@ func (Duration) String
 //@   props C12 C10
@@ -384,8 +388,14 @@ package types
 //@   loop 1
 //@     invariant len(vals) == len(res) && !isnil(vals)
 // parseUint is always called with a constant, positive field width.
+// a fixed-width numeric field of a datetime is made of digits only (no sign, no space)
 //@ func parseUint
+//@   props C12 C10
+//@   safety
 //@   requires chars >= 0
+//@   results v, rest, err
+//@   ensures digits: err == nil ==> (chars <= len(s) && (forall k int :: (0 <= k && k < chars) ==> (48 <= s[k] && s[k] <= 57)))
+//@   ensures bound: err == nil ==> (0 <= v && v <= maxValue)
 // floating point is outside the logic: not swept
 //@ func (Decimal) Float
 //@   nosafety
@@ -400,3 +410,27 @@ package types
 // writes into storage the old value references (values are immutable: copies of
 // the old Set/Record/EntityMap share their maps).
 //@ frameshallow C11 (*Set)UnmarshalJSON (*Record)UnmarshalJSON (*EntityMap)UnmarshalJSON (*EntityUID)UnmarshalJSON (*EntityUID)UnmarshalCedar (*IPAddr)UnmarshalJSON (*Datetime)UnmarshalJSON (*Decimal)UnmarshalJSON (*Duration)UnmarshalJSON
+
+// ------------------------------------------------------------ entity map encoding order (C14)
+// The entities of a map are emitted in the order of their UIDs' text. That order is a function
+// of the map's contents alone if the text determines the UID (String is injective: the type is
+// followed by `::"`, and inside the escaped id every `"` is preceded by a backslash - assumed,
+// the escaping itself is opaque) and the UIDs are pairwise distinct (each entity carries the UID
+// it is stored under, as the type's documentation requires).
+//@ func (EntityUID) String
+//@   props C14
+//@   pure
+//@ spec func uidStr(u EntityUID) string = u.String#0()
+//@ axiom uidString_injective: forall a EntityUID, b EntityUID :: { uidStr(a), uidStr(b) } uidStr(a) == uidStr(b) ==> a == b
+//@ func (EntityMap) MarshalJSON
+//@   props C14
+//@   requires forall k EntityUID :: has(e, k) ==> e[k].UID == k
+//@   assert before "return json.Marshal(s)" strictly_sorted: strLess(uidStr(s[$si].UID), uidStr(s[$sj].UID))
+// The parents of an entity are emitted in the lexicographic order of (type, id), which is strict
+// on distinct UIDs: the order of the output is a function of the parent *set*.
+//@ func (Entity) MarshalJSON
+//@   props C14
+//@   loop 1
+//@     invariant forall i int, j int :: (0 <= i && i < j && j < len(parents)) ==> parents[i] != parents[j]
+//@     invariant forall j int :: (0 <= j && j < len(parents)) ==> $done[mkstruct(EntityUID, parents[j].Type, parents[j].ID)]
+//@   assert before "return json.Marshal(m)" strictly_sorted: strLess(string(parents[$si].Type), string(parents[$sj].Type)) || (parents[$si].Type == parents[$sj].Type && strLess(string(parents[$si].ID), string(parents[$sj].ID)))
